@@ -543,3 +543,60 @@ func execFmtSweep(e *env, op *Op, out *Outcome) {
 		e.stats.Extra["c11_odd_formats_checked"]++
 	}
 }
+
+// ---- the helpers that are not Sprint*/Fprint* -----------------------------------
+
+func init() { opKinds["helpers"] = execHelpers }
+
+func execHelpers(e *env, op *Op, out *Outcome) {
+	fail := func(what, detail string) {
+		out.Checks = append(out.Checks, "C11/written-output-lost#helpers/"+what+": "+detail)
+	}
+	defer func() {
+		if r := recover(); r != nil {
+			out.Checks = append(out.Checks, fmt.Sprintf("C11/call-panicked#helpers: %v", r))
+		}
+	}()
+	var parts []redact.RedactableString
+	var plain []string
+	for i := range op.A {
+		s := string(op.A[i].S)
+		// EscapeBytes / EscapeMarkers on every piece
+		eb := redact.EscapeBytes([]byte(s))
+		if got := redactableStrip(string(eb)); op.N == 1 && got != s {
+			fail("EscapeBytes", fmt.Sprintf("EscapeBytes(%q) = %q: content lost", s, string(eb)))
+		}
+		if em := redact.EscapeMarkers([]byte(s)); op.N == 1 && string(em) != s {
+			fail("EscapeMarkers", fmt.Sprintf("EscapeMarkers(%q) = %q", s, string(em)))
+		}
+		parts = append(parts, eb.ToString())
+		if rt := eb.ToString().ToBytes().ToString(); rt != eb.ToString() {
+			fail("ToBytes/ToString", "round trip changed the value")
+		}
+		plain = append(plain, s)
+	}
+	delim := redact.RedactableString(op.F)
+	j := redact.Join(delim, parts)
+	out.Out = string(j)
+	if op.N == 1 {
+		if got, want := redactableStrip(string(j)), strings.Join(plain, redactableStrip(string(op.F))); got != want {
+			fail("Join", fmt.Sprintf("Join(%q, %d parts) stripped = %q, want %q", string(op.F), len(parts), clip(got), clip(want)))
+		}
+	}
+	// JoinTo into a SafePrinter, with the slice of strings unsafe
+	jt := redact.Sprintfn(func(w redact.SafePrinter) { redact.JoinTo(w, delim, plain) })
+	if op.N == 1 {
+		if got, want := redactableStrip(string(jt)), strings.Join(plain, redactableStrip(string(op.F))); got != want {
+			fail("JoinTo", fmt.Sprintf("JoinTo stripped = %q, want %q", clip(got), clip(want)))
+		}
+	}
+	cp := append([]redact.RedactableString{}, parts...)
+	redact.SortStrings(cp)
+	if len(cp) != len(parts) {
+		fail("SortStrings", "length changed")
+	}
+	_ = redact.StringWithoutMarkers(j)
+	if e.t != nil {
+		e.stats.Extra["c11_helper_groups_checked"]++
+	}
+}
